@@ -383,3 +383,13 @@ Example C16_nonvacuous_fourier_projection_mixed_idem : forall (a : nat -> nat ->
        (fourier_projection_mixed c0 cadd cmul cconj 4 w4 quarter 4 w4 quarter quarter four iisq c0 a [iflat]))
     (fourier_projection_mixed c0 cadd cmul cconj 4 w4 quarter 4 w4 quarter quarter four iisq c0 a [iflat]).
 Proof. exact C16i_fourier_projection_mixed_idem. Qed.
+
+(* Why the repair is needed (fixes/C16-fourier-projection-ifftshift.diff): with fftshift instead
+   of ifftshift in fourier_projection the detector sees fftshift(fftshift(a))^2, and two fftshifts
+   are not the identity on an odd axis (they are on even axes, where the unrepaired code is right). *)
+Example C16_unrepaired_double_fftshift_refuted :
+  exists a : nat -> nat -> nat, fftshift2 3 3 (fftshift2 3 3 a) 0 0 <> a 0 0.
+Proof. exact C16i_double_fftshift_odd. Qed.
+Example C16_unrepaired_double_fftshift_even_ok : forall (a : nat -> nat -> nat) (n1 n2 : nat),
+  n1 < 4 -> n2 < 6 -> fftshift2 4 6 (fftshift2 4 6 a) n1 n2 = a n1 n2.
+Proof. exact C16i_double_fftshift_even. Qed.
